@@ -9,7 +9,9 @@ Local Open Scope Z_scope.
 Definition row_ok (mb : Z) (T : list Z) (it : item) (new : list str) (l l' : link) : Prop :=
   lk_msg l' = lk_msg l /\ lk_mbox l' = lk_mbox l /\ lk_uid l' = lk_uid l /\
   (if in_mbox mb l && memZ (lk_uid l) T
-   then (forall f, In f (lk_flags l') <-> apply_rel it (lk_flags l) new f) /\ NoDup (lk_flags l')
+   then (forall k, In k (keys (lk_flags l')) <-> apply_rel it (lk_flags l) new k)
+        /\ NoDup (keys (lk_flags l'))
+        /\ (forall f, In f (lk_flags l') -> In f (lk_flags l) \/ In f new)
    else l' = l).
 
 Lemma spec_update_meaning ls mb T s it new :
@@ -66,12 +68,21 @@ Proof.
   destruct Ho as [->| ->]; simpl; apply K.
 Qed.
 
-(** flags a copy starts with: the original's, plus \Recent *)
-Lemma copy_flags_spec fl f : In f (copy_flags fl) <-> In f fl \/ f = RECENT.
+(** flags a copy starts with: the original's, plus \Recent unless it is there
+    in some spelling *)
+Lemma copy_flags_spec fl f :
+  In f (copy_flags fl) <-> In f fl \/ (f = RECENT /\ ~ In (fkey RECENT) (keys fl)).
 Proof.
-  unfold copy_flags. destruct (mem RECENT (to_set fl)) eqn:E.
-  - apply mem_In in E. rewrite to_set_In in E. split; [auto | intros [H|H]; [assumption | rewrite H; exact E]].
-  - rewrite in_app_iff. simpl. split; [intros [H|[<-|[]]]; auto | intros [H| ->]; auto].
+  unfold copy_flags. destruct (mem_ci RECENT fl) eqn:E.
+  - apply mem_ci_In in E. split; [auto | intros [H|[_ H]]; [assumption | contradiction]].
+  - apply mem_ci_false in E. rewrite in_app_iff. simpl.
+    split; [intros [H|[<-|[]]]; auto | intros [H|[-> _]]; auto].
+Qed.
+
+Lemma copy_flags_recent fl : In (fkey RECENT) (keys (copy_flags fl)).
+Proof.
+  unfold copy_flags. destruct (mem_ci RECENT fl) eqn:E; [now apply mem_ci_In|].
+  rewrite keys_app, in_app_iff. right. now left.
 Qed.
 
 (** (d) an operation of a session that opened the mailbox with EXAMINE changes nothing *)
@@ -86,17 +97,34 @@ Definition read_only_op (o : op) : Prop :=
 Theorem examine_changes_nothing e s o : read_only_op o -> step e s o = s.
 Proof. destruct o; simpl; try contradiction; intros ->; reflexivity. Qed.
 
-(** ---------- (b) queries: whole-word tests are set membership ---------- *)
+(** ---------- (b) queries: whole-word, case-insensitive tests are membership
+    of the flag's key ---------- *)
+
+Lemma has_flag_exact fl q : has_flag fl q = has_key_of q fl.
+Proof. apply mem_ci_keys. Qed.
 
 Lemma key_holds_exact k fl : key_holds k fl = spec_key_holds k fl.
-Proof. destruct k; reflexivity. Qed.
+Proof. destruct k; simpl; now rewrite ?has_flag_exact. Qed.
+
+Lemma positions_ext {A} (p q : A -> bool) l : (forall x, p x = q x) ->
+  forall i, positions p i l = positions q i l.
+Proof.
+  intros H. induction l as [|x l IH]; simpl; intros i; [reflexivity|]. now rewrite H, IH.
+Qed.
+
+Lemma filter_ext_l {A} (p q : A -> bool) l : (forall x, p x = q x) -> filter p l = filter q l.
+Proof. intros H. induction l as [|x l IH]; simpl; [reflexivity|]. now rewrite H, IH. Qed.
 
 Theorem search_exact ls mb k : search ls mb k = spec_search ls mb k.
-Proof. reflexivity. Qed.
+Proof. unfold search, spec_search. apply positions_ext. intros l. apply key_holds_exact. Qed.
 
 Theorem unseen_exact ls mb :
   unseen_count ls mb = spec_unseen_count ls mb /\ first_unseen ls mb = spec_first_unseen ls mb.
-Proof. split; reflexivity. Qed.
+Proof.
+  unfold unseen_count, spec_unseen_count, first_unseen, spec_first_unseen. split.
+  - f_equal. f_equal. apply filter_ext_l. intros l. now rewrite has_flag_exact.
+  - f_equal. apply positions_ext. intros l. now rewrite has_flag_exact.
+Qed.
 
 (** what FETCH (UID FLAGS) reports is the table: a row is in the view of its mailbox *)
 Lemma view_complete ls mb l : In l ls -> lk_mbox l = mb -> In (lk_uid l, lk_flags l) (view ls mb).
